@@ -3,7 +3,7 @@
     about every generated command, and the table the real route.NewTable built from the whole
     (reverse-sorted, newline-joined) text. *)
 From Coq Require Import String List NArith ZArith Bool.
-From Fabio Require Import Lib.Outcome Lib.Bytes Lib.Verdict Model.WtF64 Model.TableCmd Model.RouteText Model.RouteCmd.
+From Fabio Require Import Lib.Outcome Lib.Bytes Lib.Verdict Model.WtF64 Model.TableCmd Model.RouteText Model.RouteCmd Model.ServiceWatch.
 From Fabio Require Check.C05.
 Import ListNotations.
 Local Open Scope N_scope.
@@ -72,7 +72,37 @@ Section Spec.
                             forallb (asked_for is (fst h) (fst r)) (snd r)) (snd h)) t
     | _ => false
     end.
+
+  (* (3) the loop around makeConfig (ServiceMonitor.Watch), on what the implementation SENT phase by
+         phase: whatever is sent denotes the registrations consul holds at that time (nothing stale,
+         nothing partial), and at the end of every phase in which consul could be read the text last
+         sent is the text of the registrations consul holds THEN -- a failure that is over does not
+         delay the routes of any service, whether or not consul's index has moved since *)
+  Variable env : env_t.
+  Variable prefix : str.
+  Fixpoint watch_spec (phases : list (moment * nat)) (impl : list (list str)) (cur : option str) : bool :=
+    match phases, impl with
+    | [], [] => true
+    | (m, _) :: ps, sent :: rest =>
+        let ints := concat (map (intents env prefix) (m_regs m)) in
+        let good := fun text => table_spec ints (C05.obs_out (new_table pweight canon glob_ok text)) in
+        let cur' := last (map Some sent) cur in
+        forallb good sent
+        && (if readable m then match cur' with Some text => good text | None => false end else true)
+        && watch_spec ps rest cur'
+    | _, _ => false
+    end.
 End Spec.
+
+(* a catalog lookup failed, then consul could be read again at the SAME index *)
+Fixpoint has_lift (phases : list (moment * nat)) : bool :=
+  match phases with
+  | (a, _) :: (((b, _) :: _) as r) =>
+      (negb (readable a) && readable b && (m_index a =? m_index b)) || has_lift r
+  | _ => false
+  end.
+Definition PH (idx : N) (health_err : bool) (failing : list str) (regs : list reg) (turns : nat) : moment * nat :=
+  ({| m_index := idx; m_health_err := health_err; m_failing := failing; m_regs := regs |}, turns).
 
 Inductive case :=
 (* urls / badglobs / wlits: url.Parse, glob.Compile, strconv.ParseFloat on the strings of the case
@@ -90,6 +120,14 @@ Inductive case :=
 | CConfig (env : env_t) (prefix : str)
           (urls : list (str * option str)) (badglobs : list str) (wlits : list (str * outcome wt))
           (regs : list reg) (lookup_failed : bool) (impl_err : bool) (impl : str)
+(* a history of the real ServiceMonitor.Watch against a fake consul with real blocking queries:
+   [phases]: what consul held and answered, phase by phase (index, health query fails, services whose
+   catalog lookup fails, catalog entries of the passing instances, turns of the loop the phase
+   lasts); [impl]: the texts the loop sent on the updates channel during each phase (a phase in
+   which a text is due ends when it arrives or after the deadline: retry sleep plus slack) *)
+| CWatch (env : env_t) (prefix : str)
+         (urls : list (str * option str)) (badglobs : list str) (wlits : list (str * outcome wt))
+         (poll : bool) (phases : list (moment * nat)) (impl : list (list str))
 (* the library models on their own (strconv.Quote: the model of the code before d16ce3d; np: the
    non-printable runes >= 128 of s, by strconv.IsPrint) *)
 | CExpand (env : env_t) (s impl : str)
@@ -138,6 +176,16 @@ Definition check_case (c : case) : N :=
       let spec := negb ierr && table_spec pw canon gl all (C05.obs_out (new_table pw canon gl impl)) in
       let region := if existsb F_C14_altering all then Some 2 else None in
       verdict same spec region (existsb (fun c => match c with [] => true | _ => false end) cmds)
+  | CWatch env prefix urls bad wl poll phases impl =>
+      let canon := C05.canon_of urls in
+      let gl := C05.glob_of bad in
+      let pw := C05.pweight_of wl in
+      let msent := monitor_phases pw canon gl env prefix poll 0 phases in
+      let same := list_eqb (list_eqb beq) impl msent && C05.wlits_ok wl in
+      let spec := watch_spec pw canon gl env prefix phases impl None in
+      let all := concat (map (fun p : moment * nat => concat (map (intents env prefix) (m_regs (fst p)))) phases) in
+      let region := if existsb F_C14_altering all then Some 2 else None in
+      verdict same spec region (has_lift phases)
   | CExpand env s impl =>
       let ok := beq impl (expand env s) in
       verdict ok ok None (existsb (N.eqb 36) s)
